@@ -715,3 +715,17 @@ Proof.
   repeat (split; [first [vm_compute; reflexivity | eapply bool_decide_eq_true_1; vm_compute; reflexivity]|]).
   vm_compute; reflexivity.
 Qed.
+
+(* a service deregistration that succeeds: the instance and the check that names it go, the node
+   and its node-level check stay *)
+Example service_dereg_example :
+  let s := (run orphan_log st0).1 in
+  (apply 5 (Deregister "n1" "s1" "") s).2 = CNil /\
+  let s' := (apply 5 (Deregister "n1" "s1" "") s).1 in
+  services s' !! ("n1", "s1") = None /\ checks s' !! ("n1", "c1") = None /\
+  is_Some (checks s' !! ("n1", "c2")) /\ is_Some (nodes s' !! "n1").
+Proof.
+  cbv zeta.
+  repeat (split; [first [vm_compute; reflexivity | eapply bool_decide_eq_true_1; vm_compute; reflexivity]|]).
+  eapply bool_decide_eq_true_1; vm_compute; reflexivity.
+Qed.
